@@ -81,3 +81,17 @@ NOT_APPLICABLE = {p: 'under construction in this session (contract-based check b
                   ['C05', 'C08', 'C09', 'C10', 'C14', 'C15', 'C17', 'C18', 'C19', 'C20']}
 NOT_APPLICABLE['C16'] = ('concurrency (interleavings of threads sharing a SourceView over std Mutex / atomics): Kani has no thread support and Verus needs '
                          'its own permission-typed primitives, so no contract within reach of the installed verifiers expresses or decides it')
+
+# parts of each property that no discharged obligation covers (reported in every evidence file, never counted)
+NOT_COVERED = {
+    'C01': ['mapping-level inverse lemma decode(encode(ts)) == dedup(ts) (spec level)', 'as_raw_sourcemap field plumbing (SourceMap / SourceMapIndex / Hermes)',
+            'decode_regular tail (names / sources / contents / file / debug id / ignore list conversions)', 'serde_json layer'],
+    'C02': ['exact accumulator semantics of the mapping loop against a reference mappings decoder', 'decode_common kind dispatch', 'lenient names/file/sources conversions, debug_id precedence'],
+    'C03': ['as_raw_sourcemap field plumbing and the serde skip_serializing_if attributes', 'index-map sections', '"an independent decoder reads it back" needs the mapping-level inverse lemma'],
+    'C06': ['segment arity and index-range rejection stated against a reference mappings decoder (only "no stored index is unresolvable" and the VLQ-level clauses are proved)'],
+    'C07': ['range bitfield WRITER (serialize_range_mappings / encode_rmi): not under contract yet; design-phase replay shows defects D3/D4/D8 there'],
+    'C11': ['canonical-text direction encode(decode(s)) == s'],
+    'C12': ['detection predicates is_sourcemap / is_sourcemap_slice wiring', 'decode_data_url'],
+    'C13': ['"serialisation writes raw names plus root" (as_raw_sourcemap)', 'strip_prefixes'],
+    'C04': ['adjust_mappings re-sort and rewrite / flatten as token producers (their results go through into_sourcemap / SourceMap::new, which are proved)'],
+}
